@@ -24,10 +24,17 @@ pub struct CleanImage {
 
 /// Run a generated history on the real store (free-running worker), flush, close, and take the directory.
 pub fn make_clean_image(seed: u64, hist: u64, max_bytes: usize) -> Option<CleanImage> {
+    make_clean_image_opt(seed, hist, max_bytes, false)
+}
+
+/// `d7_free`: the history never re-appends at or below a removed log id (the pattern of C07's known finding D7),
+/// so that the image can be used under tiny cache limits without meeting it.
+pub fn make_clean_image_opt(seed: u64, hist: u64, max_bytes: usize, d7_free: bool) -> Option<CleanImage> {
     for attempt in 0..20u64 {
         let mut r = Rng::new(seed.wrapping_add(attempt.wrapping_mul(0x9e37)));
         let mut p = GenParams::default();
         p.big_payloads = false;
+        p.lower_term = !d7_free;
         p.min_ops = 6;
         p.max_ops = 22;
         p.end_sync = true;
@@ -70,7 +77,10 @@ pub fn make_clean_image(seed: u64, hist: u64, max_bytes: usize) -> Option<CleanI
                 run.st.close();
                 let img = store::read_image(&dir);
                 let total: usize = img.iter().map(|f| f.1.len()).sum();
-                if total <= max_bytes && !img.is_empty() && state == run.m.st {
+                if entries != run.m.entries() && std::env::var("RLMON_DEBUG").is_ok() {
+                    eprintln!("DEBUG clean image: store entries {:?} != model {:?}; state {:?}", entries.iter().map(|e| e.0).collect::<Vec<_>>(), run.m.entries().iter().map(|e| e.0).collect::<Vec<_>>(), state);
+                }
+                if total <= max_bytes && !img.is_empty() && state == run.m.st && entries == run.m.entries() {
                     out = Some(CleanImage { img, cfg: case.cfg.clone(), state, entries, ops: crate::genr::steps_brief(&case.steps) });
                 }
             } else {
@@ -136,6 +146,8 @@ pub struct C09Stats {
     pub exhaustive_images: u64,
     pub live_alterations: u64,
     pub live_reported: u64,
+    pub no_truncate_cases: u64,
+    pub dump_cases: u64,
 }
 
 fn c09_viol(sig: String, text: String, ci: &CleanImage, mutated: &Image, desc: Value) -> Viol {
@@ -144,6 +156,71 @@ fn c09_viol(sig: String, text: String, ci: &CleanImage, mutated: &Image, desc: V
 
 /// Decide one mutated image. `fidx` = index of the mutated file, `rec_start` = start of the mutated record in it.
 #[allow(clippy::too_many_arguments)]
+/// With `truncate_incomplete_record = false` nothing may be cut off: every altered byte must make open fail
+/// (no "looks like a torn tail" ambiguity exists), and no file may change.
+fn c09_judge_no_truncate(ci: &CleanImage, idir: &ImageDir, mutated: &Image, field: Option<Field>, desc: Value, stats: &mut C09Stats) -> Option<Viol> {
+    let cfg = { let mut c = ci.cfg.clone(); c.truncate = Some(false); c };
+    let (res, after) = open_and_read(idir, mutated, &cfg);
+    stats.opens += 1;
+    stats.no_truncate_cases += 1;
+    let fname = field.map(|f| f.name()).unwrap_or("?");
+    match res {
+        Opened::Panic(p) => Some(c09_viol(format!("panic:{}", p.rsplit(" @ ").next().unwrap_or("?")), format!("open (truncation disabled) panicked: {}", p), ci, mutated, desc)),
+        Opened::Ok { entries: Err(_), .. } => None,
+        Opened::Ok { state, entries: Ok(es) } => Some(c09_viol(
+            format!("absorbed_with_truncation_disabled:{}", fname),
+            format!("truncate_incomplete_record=false, an altered {} byte, and open succeeded without any error (state {:?}, {} entries; written {:?}, {})", fname, state, es.len(), ci.state, ci.entries.len()),
+            ci,
+            mutated,
+            desc,
+        )),
+        Opened::Err(_) => {
+            stats.refused += 1;
+            if &after != mutated {
+                return Some(c09_viol("refused_open_modified_files_with_truncation_disabled".into(), "open refused (truncation disabled) but chunk files changed".into(), ci, mutated, desc));
+            }
+            None
+        }
+    }
+}
+
+/// The offline Dump tool reads the same files: it must show an error for the altered record, not a shorter journal.
+fn c09_judge_dump(ci: &CleanImage, idir: &ImageDir, mutated: &Image, orig_records: usize, field: Option<Field>, desc: Value, stats: &mut C09Stats) -> Option<Viol> {
+    use raft_log::{Dump, DumpApi};
+    idir.install(mutated);
+    stats.dump_cases += 1;
+    let cfg = ci.cfg.to_config(&idir.dir);
+    let mut ok_records = 0usize;
+    let mut errors = 0usize;
+    let r = crate::store::guarded(|| {
+        let d = Dump::<crate::store::V>::new(cfg)?;
+        d.write_with(|_c, _i, res| {
+            match res {
+                Ok(_) => ok_records += 1,
+                Err(_) => errors += 1,
+            }
+            Ok(())
+        })
+    });
+    match r {
+        Err(p) => Some(c09_viol(format!("dump_panic:{}", p.rsplit(" @ ").next().unwrap_or("?")), format!("Dump of an image with an altered byte panicked: {}", p), ci, mutated, desc)),
+        Ok(Err(_)) => None,
+        Ok(Ok(())) => {
+            if errors == 0 {
+                Some(c09_viol(
+                    format!("dump_silent:{}", field.map(|f| f.name()).unwrap_or("?")),
+                    format!("Dump listed {} records without any error although a byte of a record was altered (the unaltered image has {} records)", ok_records, orig_records),
+                    ci,
+                    mutated,
+                    desc,
+                ))
+            } else {
+                None
+            }
+        }
+    }
+}
+
 fn c09_judge(ci: &CleanImage, idir: &ImageDir, mutated: &Image, fidx: usize, rec_start: usize, field: Option<Field>, desc: Value, stats: &mut C09Stats) -> Option<Viol> {
     let cfg = { let mut c = ci.cfg.clone(); c.truncate = None; c };
     let (res, after) = open_and_read(idir, mutated, &cfg);
@@ -325,9 +402,27 @@ pub fn c09_image(ci: &CleanImage, r: &mut Rng, all_values: bool, stats: &mut C09
                     let class = format!("{}:{}:{}", field.map(|f| f.name()).unwrap_or("?"), if ri == 0 { "head_state" } else { "record" }, if fidx + 1 == ci.img.len() { "newest" } else { "older" });
                     *stats.by_class.entry(class).or_insert(0) += 1;
                     let desc = json!({"chunk": cid, "offset": pos, "old": bytes[pos], "new": val, "record_index": ri, "field": field.map(|f| f.name())});
-                    if let Some(v) = c09_judge(ci, &idir, &m, fidx, *s, field, desc, stats) {
+                    if let Some(v) = c09_judge(ci, &idir, &m, fidx, *s, field, desc.clone(), stats) {
                         if !out_viols.iter().any(|x| x.sig == v.sig) {
                             out_viols.push(v);
+                        }
+                    }
+                    // a sample of the mutations also with truncation disabled and through the Dump tool
+                    if all_values || r.chance(1, 6) {
+                        let mut d2 = desc.clone();
+                        d2["variant"] = json!("truncate_disabled");
+                        if let Some(v) = c09_judge_no_truncate(ci, &idir, &m, field, d2, stats) {
+                            if !out_viols.iter().any(|x| x.sig == v.sig) {
+                                out_viols.push(v);
+                            }
+                        }
+                        let mut d3 = desc.clone();
+                        d3["variant"] = json!("dump");
+                        let total_records: usize = ci.img.iter().map(|(_, b)| refcodec::parse_file(b).recs.len()).sum();
+                        if let Some(v) = c09_judge_dump(ci, &idir, &m, total_records, field, d3, stats) {
+                            if !out_viols.iter().any(|x| x.sig == v.sig) {
+                                out_viols.push(v);
+                            }
                         }
                     }
                 }
@@ -444,6 +539,14 @@ fn c10_enabled(ci: &CleanImage, idir: &ImageDir, m: &Image, good: usize, desc: V
     if do_cont {
         stats.continuations += 1;
         idir.install(m);
+        // half of the continuations run under a tiny payload cache and drain it: what was recovered must be
+        // readable from the files, not only from the cache
+        let tiny = r.chance(1, 2);
+        let mut cfg = cfg.clone();
+        if tiny {
+            cfg.max_items = Some(*r.pick(&[0usize, 1, 2]));
+            cfg.capacity = Some(*r.pick(&[0usize, 8, 64]));
+        }
         let mut st = match Store::open(&idir.dir, &cfg, 41) {
             Ok(s) => s,
             Err(o) => return Some(c10_viol("second_open", o.brief(), ci, m, desc, cfg.truncate)),
@@ -454,9 +557,21 @@ fn c10_enabled(ci: &CleanImage, idir: &ImageDir, m: &Image, good: usize, desc: V
         gp.lower_term = false;
         let mut g = Gen::new(r.next(), 700_000, gp);
         g.m = model.clone();
-        g.term_hint = model.st.last.map(|l| l.0).unwrap_or(1).max(1);
+        // terms above every term that ever appears in the image: the new ids lie above every id that was ever
+        // truncated away, so the known D7 pattern (C07) cannot arise in a tiny-cache continuation
+        let top_term = m.iter().flat_map(|(_, b)| refcodec::parse_file(b).recs.into_iter().map(|(_, _, r)| r.max_term())).max().unwrap_or(0);
+        g.term_hint = model.st.last.map(|l| l.0).unwrap_or(1).max(1).max(top_term + 1);
         let mut fail = None;
+        if tiny {
+            st.rl().drain_cache_evictable();
+            if st.read_all() != Outcome2::Ok(model.entries()) {
+                fail = Some(format!("after recovery under a tiny cache + drain, reading all entries gives {:?}", match st.read_all() { Outcome2::Ok(v) => format!("{} entries", v.len()), Outcome2::Err(e) => e, Outcome2::Panic(p) => p }));
+            }
+        }
         for _ in 0..5 {
+            if fail.is_some() {
+                break;
+            }
             let op = g.gen_write();
             let mut m2 = g.m.clone();
             if Gen::apply_to_model(&mut m2, &op).1.is_err() {
@@ -467,6 +582,15 @@ fn c10_enabled(ci: &CleanImage, idir: &ImageDir, m: &Image, good: usize, desc: V
             if !o.is_ok() {
                 fail = Some(format!("after recovery, legal {} -> {}", op.brief(), o.brief()));
                 break;
+            }
+            if tiny {
+                st.rl().drain_cache_evictable();
+                match st.read_all() {
+                    Outcome2::Ok(v) if v == g.m.entries() => {}
+                    Outcome2::Ok(v) => fail = Some(format!("after recovery + {} under a tiny cache: {}", op.brief(), seq::diff_entries(&v, &g.m.entries()))),
+                    Outcome2::Err(e) => fail = Some(format!("after recovery + {} under a tiny cache, read failed: {}", op.brief(), e)),
+                    Outcome2::Panic(p) => fail = Some(format!("read panicked: {}", p)),
+                }
             }
         }
         model = g.m.clone();
@@ -479,8 +603,14 @@ fn c10_enabled(ci: &CleanImage, idir: &ImageDir, m: &Image, good: usize, desc: V
         if fail.is_none() {
             match Store::open(&idir.dir, &cfg, 42) {
                 Ok(mut s2) => {
-                    if s2.state() != model.st || s2.read_all() != Outcome2::Ok(model.entries()) {
-                        fail = Some(format!("after recovery + 5 writes + flush + restart: state {:?}, model {:?}", s2.state(), model.st));
+                    let ra = s2.read_all();
+                    if s2.state() != model.st || ra != Outcome2::Ok(model.entries()) {
+                        let how = match &ra {
+                            Outcome2::Ok(v) => seq::diff_entries(v, &model.entries()),
+                            Outcome2::Err(e) => format!("read failed: {}", e),
+                            Outcome2::Panic(p) => format!("read panicked: {}", p),
+                        };
+                        fail = Some(format!("after recovery + 5 writes + flush + restart (cache max_items={:?}): state {:?}, model {:?}; entries: {}", cfg.max_items, s2.state(), model.st, how));
                     }
                     s2.close();
                 }
@@ -488,6 +618,12 @@ fn c10_enabled(ci: &CleanImage, idir: &ImageDir, m: &Image, good: usize, desc: V
             }
         }
         if let Some(f) = fail {
+            if std::env::var("RLMON_DEBUG").is_ok() {
+                for (c, b) in store::read_image(&idir.dir) {
+                    eprintln!("DEBUG chunk {} : {:?}", c, refcodec::parse_file(&b).recs.iter().map(|r| r.2.to_json().to_string()).collect::<Vec<_>>());
+                }
+                eprintln!("DEBUG cfg {:?}", cfg);
+            }
             return Some(c10_viol("continuation", f, ci, m, desc, cfg.truncate));
         }
     }
@@ -594,7 +730,7 @@ pub fn run_shard(ctx: &mut Ctx) {
             break;
         }
         let max_bytes = if is09 { if ctx.tier == Tier::Thorough { 700 } else { 900 } } else { 2500 };
-        let Some(ci) = make_clean_image(r.next(), h + ctx.shard as u64 * 1_000_000, max_bytes) else {
+        let Some(ci) = make_clean_image_opt(r.next(), h + ctx.shard as u64 * 1_000_000, max_bytes, !is09) else {
             ctx.out.inconclusive.push("could not produce a clean image".into());
             h += 1;
             continue;
@@ -630,6 +766,8 @@ pub fn run_shard(ctx: &mut Ctx) {
         ctx.out.count("opens_of_mutated_images", s09.opens);
         ctx.out.count("mutations_reported(open_or_read_error)", s09.refused);
         ctx.out.count("middle_chunks_removed", s09.removed_middle);
+        ctx.out.count("mutations_also_opened_with_truncation_disabled", s09.no_truncate_cases);
+        ctx.out.count("mutations_also_listed_with_the_Dump_tool", s09.dump_cases);
         ctx.out.count("bytes_altered_underneath_an_open_store_then_read", s09.live_alterations);
         ctx.out.count("of_which_reported_by_the_read", s09.live_reported);
         ctx.out.count("images_swept_with_all_255_values_at_every_byte", s09.exhaustive_images);
